@@ -45,6 +45,12 @@ class Model:
         self.received = set()
         self.lastseq = {}     # (giver, taker, chan) -> last seq received
         self.giveseq = 0
+        # hidden implementation state that the abstract channel cannot see: position of the items ring
+        # buffer (4 slots initially). With ring_key the canonical key keeps enqueues/dequeues mod 4 so that
+        # histories differing only in the ring position are explored separately.
+        self.ring_key = False
+        self.enq = [0] * len(caps)
+        self.deq = [0] * len(caps)
 
     def clone(self):
         return copy.deepcopy(self)
@@ -107,6 +113,7 @@ class Model:
             self._finish(r, v if r[2] == "plain" else (Kw("take"), cname(c), v), comps)
             return True
         ch.items.append([v, None])
+        self.enq[c] += 1
         if len(ch.items) > ch.cap:
             ch.items[-1][1] = (w, wid, mode)
             return False
@@ -120,6 +127,7 @@ class Model:
         if idx < len(ch.items):
             ch.items[idx][1] = None
         v, _ = ch.items.pop(0)
+        self.deq[c] += 1
         msg = self._note_recv(w, c, v)
         assert msg is None, msg
         if self.live(rel):
@@ -259,4 +267,5 @@ class Model:
                           tuple(ent(e) for e in ch.readers)))
         waits = tuple((w, self.wait[w][1]) for w in sorted(self.wait))
         # order bookkeeping that can still matter: last seq per (giver,taker,chan) relative to queued items
-        return (tuple(chans), waits)
+        ring = tuple((self.enq[i] % 4, self.deq[i] % 4) for i in range(len(self.ch))) if self.ring_key else ()
+        return (tuple(chans), waits, ring)
